@@ -397,6 +397,24 @@ func codeForHTTPStatus(st int) int64 {
 type Detail struct {
 	Type  string `json:"type"` // fully-qualified message name, no URL prefix
 	Value []byte `json:"value"`
+	// URLPrefix: what precedes the name in the Any type URL where the protocol carries one (gRPC, REST);
+	// "" means the usual "type.googleapis.com/". The Connect error format carries the bare name only.
+	URLPrefix string `json:"url_prefix,omitempty"`
+}
+
+func (d Detail) typeURL() string {
+	if d.URLPrefix != "" {
+		return d.URLPrefix + d.Type
+	}
+	return "type.googleapis.com/" + d.Type
+}
+
+// anyTypeName: the message name of an Any type URL is what follows its last slash.
+func anyTypeName(url string) string {
+	if i := strings.LastIndexByte(url, '/'); i >= 0 {
+		return url[i+1:]
+	}
+	return url
 }
 
 type ErrSpec struct {
@@ -415,7 +433,7 @@ func (e *ErrSpec) String() string {
 func (e *ErrSpec) statusProto() *status.Status {
 	st := &status.Status{Code: int32(e.Code), Message: e.Message}
 	for _, d := range e.Details {
-		st.Details = append(st.Details, &anypb.Any{TypeUrl: "type.googleapis.com/" + d.Type, Value: d.Value})
+		st.Details = append(st.Details, &anypb.Any{TypeUrl: d.typeURL(), Value: d.Value})
 	}
 	return st
 }
@@ -531,7 +549,7 @@ func parseGRPCStatus(h http.Header) (present bool, e *ErrSpec, problems []string
 			problems = append(problems, fmt.Sprintf("grpc-message %q disagrees with details-bin message %q", e.Message, st.GetMessage()))
 		}
 		for _, a := range st.GetDetails() {
-			e.Details = append(e.Details, Detail{Type: strings.TrimPrefix(a.GetTypeUrl(), "type.googleapis.com/"), Value: a.GetValue()})
+			e.Details = append(e.Details, Detail{Type: anyTypeName(a.GetTypeUrl()), Value: a.GetValue()})
 		}
 	}
 	return true, e, problems
@@ -600,7 +618,7 @@ func parseRESTErrorJSON(body []byte) (*ErrSpec, []string) {
 	}
 	e := &ErrSpec{Code: int64(st.GetCode()), Message: st.GetMessage()}
 	for _, a := range st.GetDetails() {
-		e.Details = append(e.Details, Detail{Type: strings.TrimPrefix(a.GetTypeUrl(), "type.googleapis.com/"), Value: a.GetValue()})
+		e.Details = append(e.Details, Detail{Type: anyTypeName(a.GetTypeUrl()), Value: a.GetValue()})
 	}
 	return e, nil
 }
